@@ -3,7 +3,7 @@
    gen_make_contingency_manager, gen_make_event_tables, gen_contingency_maps (categorical/contingency_impl.py) are
    regenerated from the current source on every run; `mode` is a string (MStr) or a function of the operator module (MOp).
    Only statements; every proof is `exact <lemma>` into coq/proofs/C08.v. *)
-From V Require Import lib.Tree lib.C08_aux gen.Gen_C08_discretise gen.Gen_C08_contingency model.C08 proofs.C08 proofs.C08_additive proofs.C08_proportion.
+From V Require Import lib.Tree lib.C08_aux gen.Gen_C08_discretise gen.Gen_C08_contingency model.C08 proofs.C08 proofs.C08_additive proofs.C08_proportion proofs.C08_model.
 
 (* ---- discretisation ---- *)
 (* for each of the six relations r, both spellings, every rational data value x, threshold c and tolerance tol >= 0:
@@ -146,6 +146,27 @@ Theorem C08_array_count_tp_direct : forall fcst obs op t R e,
   xofnat (count_if (fun c => cvalid c && p_tp op t c) (group_cells fcst obs R e)).
 Proof. exact array_count_tp. Qed.
 Print Assumptions C08_array_count_tp_direct.
+
+(* ... and on the array model the correspondence check runs against the implementation
+   (ThresholdEventOperator(dt, dop).make_contingency_manager(fcst, obs, t, op).transform(rd, pd).get_counts()):
+   whenever it returns, with a real reduction every cell of tp / tn / fp / fn is the direct count of its own group under the
+   threshold and operator actually in force (the defaults exactly for None), and total is the number of pairs valid in both *)
+Theorem C08_model_counts : forall dt dop fcst obs t op rd pd l,
+  manager_counts (fst (event_arrays gen_make_contingency_manager dt dop fcst obs t op))
+                 (snd (event_arrays gen_make_contingency_manager dt dop fcst obs t op)) rd pd = Ok l ->
+  exists R tp tn fp fn tot,
+    l = [tp; tn; fp; fn; tot] /\
+    gather (ldims fcst) (ldims obs) None rd pd DNone = Ok R /\
+    (dinter (dunion (ldims fcst) (ldims obs)) R <> [] ->
+     let op' := eff_op dop op in let t' := eff_threshold dt t in
+     forall e,
+       lget tp e =x= xofnat (count_if (fun c => cvalid c && p_tp op' t' c) (group_cells fcst obs R e)) /\
+       lget tn e =x= xofnat (count_if (fun c => cvalid c && p_tn op' t' c) (group_cells fcst obs R e)) /\
+       lget fp e =x= xofnat (count_if (fun c => cvalid c && p_fp op' t' c) (group_cells fcst obs R e)) /\
+       lget fn e =x= xofnat (count_if (fun c => cvalid c && p_fn op' t' c) (group_cells fcst obs R e)) /\
+       lget tot e =x= xofnat (count_if cvalid (group_cells fcst obs R e))).
+Proof. exact model_counts. Qed.
+Print Assumptions C08_model_counts.
 
 (* additivity: the NaN-skipping sum of a concatenation of groups is the NaN-skipping sum of the group sums ... *)
 Theorem C08_nansum_groups : forall ls : list (list xv), Forall noinf ls -> nansum (List.concat ls) =x= nansum (map nansum ls).
